@@ -1547,7 +1547,17 @@ func (m *Monitors) checkJobTransition(ev *Event, jr *jobRec, old, j *execution.J
 				m.fail("C10", "success-not-satisfied", "Job %s reported Succeeded but its strategy is not satisfied by tasks that really succeeded", j.Name)
 			}
 			if res == execution.JobResultFailed && !unsat {
-				m.fail("C10", "failed-still-satisfiable", "Job %s reported Failed but its strategy can still be satisfied (or is satisfied)", j.Name)
+				sfx := ""
+				if j.DeletionTimestamp != nil {
+					// the Job is being deleted and its finalizer removed a task that had succeeded before the deletion,
+					// without the controller ever having seen the success (its Pod cache was behind)
+					for _, nt := range j.Status.Tasks {
+						if rec := m.pods[j.Namespace+"/"+nt.Name]; rec != nil && rec.Succeeded && !rec.LateSuccess && nt.Status.Result != execution.TaskSucceeded {
+							sfx = ":success-unobserved-before-job-deletion"
+						}
+					}
+				}
+				m.fail("C10", "failed-still-satisfiable"+sfx, "Job %s reported Failed but its strategy can still be satisfied (or is satisfied)", j.Name)
 			}
 		}
 		if res == execution.JobResultKilled && j.Spec.KillTimestamp == nil && j.DeletionTimestamp == nil {
